@@ -32,6 +32,7 @@ def parsePlan (ws : List String) : Option Plan :=
     | ["reg", v] => (optNat v).map fun x => { p with regFail := x }
     | ["rereg", v] => (optNat v).map fun x => { p with reregFail := x }
     | ["unreg", v] => (optNat v).map fun x => { p with unregFail := x }
+    | ["rb", v] => if v == "0" then some { p with rollback := false } else if v == "1" then some { p with rollback := true } else none
     | ["bs", v] =>
       if v == "none" then some { p with bs := .none }
       else if v == "err" then some { p with bs := .err }
@@ -42,7 +43,7 @@ def parsePlan (ws : List String) : Option Plan :=
 def planText (p : Plan) : String :=
   let o : Option Nat → String := fun x => match x with | some j => toString j | none => "-"
   let bs := match p.bs with | .none => "none" | .err => "err" | .synth j => s!"synth{j}"
-  s!"reg={o p.regFail} rereg={o p.reregFail} unreg={o p.unregFail} bs={bs}"
+  s!"reg={o p.regFail} rereg={o p.reregFail} unreg={o p.unregFail} bs={bs}" ++ (if p.rollback then "" else " rb=0")
 
 def parseCOp (ws : List String) : Option COp :=
   match ws with
